@@ -57,6 +57,9 @@ type runSpec struct {
 	// TailLag > 0: the blocks above Final are not final when they arrive (step new); the irreversible signal of
 	// block n comes after block n+TailLag
 	TailLag uint64 `json:"tail_lag,omitempty"`
+	// FinalOnly: a final_blocks_only request (with TailLag the blocks above Final reach the pipeline as plain
+	// "irreversible" signals, as from the live hub)
+	FinalOnly bool `json:"final_only,omitempty"`
 }
 
 // snapshot of every store after a block.
@@ -100,7 +103,7 @@ func execute(p pgen.Prog, spec runSpec, seg uint64, head uint64, dir string, for
 	if forbidJobs {
 		cfg.Tier2Hook = func(stage.Unit, int) error { return errNoPureLinear }
 	}
-	out.res = world.Run(p.Modules(), world.Request{Prod: spec.Prod, Start: int64(spec.Start), Stop: spec.Stop, Output: spec.Output}, cfg)
+	out.res = world.Run(p.Modules(), world.Request{Prod: spec.Prod, Start: int64(spec.Start), Stop: spec.Stop, Output: spec.Output, FinalBlocksOnly: spec.FinalOnly}, cfg)
 	return out
 }
 
